@@ -13,6 +13,7 @@ R4  exponent normal form of concat: both e1.e2 and the returned term are flatten
     mk_loop's flattening must be guarded by right_mul_is_exact(inner, outer) and use inner.mul(outer).
 R5  derived operators and SMT-LIB wrappers: diff, star, plus, opt, exp, smt_loop, smt_range, full/empty/..., and every
     re_* / str_* wrapper calls the tabled ReManager method on the thread-local manager with its arguments in order.
+R6  list constructors, str and flattening visit every operand exactly once, in order (rules/c01b.py).
 R7  loop normal form: no Loop aggregate with range [0,0] or [1,1] is built by mk_loop (needed by C18's Loop rule).
 """
 from .. import terms as T
@@ -146,6 +147,8 @@ def run(ctx):
     guarded(ctx, 'C01.R3', 'C01.R3/set-ops', r3_setops)
     guarded(ctx, 'C01.R5', 'C01.R5/derived', r5_derived)
     guarded(ctx, 'C01.R5', 'C01.R5/wrappers', r5_wrappers)
+    from . import c01b
+    c01b.run(ctx)
 
 
 def r1_nullable(ctx):
